@@ -131,6 +131,7 @@ impl Prop for Conventions {
         cfg.static_vfuncs = true;
         cfg.vft_num = 2;
         cfg.alias_types = 4;
+        cfg.allow_f20 = true;
         let (prog, _, _) = gen_prog(t, cfg);
         Case { prog, w }
     }
